@@ -27,13 +27,28 @@ def run(ctx, proof):
     extra = {"failures_seen_for_other_properties": data.get("other_property_failures", [])}
     if proof["ok"] and data.get("surf_files"):
         # not a comparison: how many accepted renderings are instances of the layout theorem (every hypothesis evaluated in Coq)
-        c3, f3 = common.check_case_files(ctx, data["surf_files"], "instances of C10_layout_irrelevance", describe=lambda i, a: i)
+        sd = data.get("surf_descr", [])
+        c3, f3 = common.check_case_files(ctx, data["surf_files"], "instances of C10_layout_irrelevance", describe=lambda i, a: sd[i] if i < len(sd) else i)
         broken = [f for f in f3 if "did not evaluate" in f["what"]]
         cfail += broken
         extra["renderings_that_are_instances_of_C10_layout_irrelevance"] = c3["cases"] - (len(f3) - len(broken))
         extra["renderings_in_the_surface_family_by_shape"] = c3["cases"]
+        extra["in_the_family_by_shape_but_a_hypothesis_fails_samples"] = [f["case"] for f in f3 if f not in broken][:4]
         extra["accepted_renderings"] = data["distribution"].get("accepted_renderings")
-    return {"corr": [corr], "corr_failures": cfail, "oracle_failures": data["oracle_failures"],
+    corrs = [corr]
+    if proof["ok"] and data.get("obj_files"):
+        od = data["obj_descr"]
+        c4, f4 = common.check_case_files(ctx, data["obj_files"], "parse_obj with the regenerated resets (Model/ParserObj.v) vs every step of one Parser object's life (state before, text, result, state after)",
+                                         describe=lambda i, a: od[i] if i < len(od) else i)
+        corrs.append(c4)
+        cfail += f4
+    if proof["ok"] and data.get("cli_files"):
+        cd = data["cli_descr"]
+        c5, f5 = common.check_case_files(ctx, data["cli_files"], "context (Model/Cli.v: lines of the file, lines shown, line marked) vs the stderr of the command-line tool",
+                                         describe=lambda i, a: cd[i] if i < len(cd) else i)
+        corrs.append(c5)
+        cfail += f5
+    return {"corr": corrs, "corr_failures": cfail, "oracle_failures": data["oracle_failures"],
             "evaluations": data["evaluations"], "distinct_nontrivial": data["distinct_nontrivial"],
             "rule": RULE, "samples": data["samples"], "distribution": data["distribution"],
             "extra": extra}
